@@ -287,6 +287,13 @@ def int_trait(ex, ty, trait, targ, method, args, dty):
             return BoolV(T.eq(a.t, b.t))
         if method == "ne":
             return BoolV(T.ne(a.t, b.t))
+    if trait in ("Add", "Sub", "Mul") and method in ("add", "sub", "mul") and isinstance(a, IntV) and isinstance(b, IntV) and ty in INT_TYPES and ty not in ("U256", "U512", "U128"):
+        # operator impls on (references to) machine integers: #[rustc_inherit_overflow_checks] => panic on overflow
+        r = {"add": T.add, "sub": T.sub, "mul": T.mul}[method](a.t, b.t)
+        lo, hi = ty_range(ty)
+        if not ex.decide(T.and_(T.le(lo, r), T.le(r, hi))):
+            raise Panic(f"attempt to {method} with overflow")
+        return IntV(r, ty)
     if trait == "Clone" and method == "clone":
         return a
     if trait == "Default":
